@@ -1237,6 +1237,9 @@ pub fn gen_case(r: &mut Rng, p: Profile) -> Case {
     if matches!(p, Profile::Core3 | Profile::Full) && r.chance(1, 6) {
         return gen_durswitch_case(r, p);
     }
+    if p == Profile::Full && r.chance(1, 12) {
+        return gen_acc_lru_case(r);
+    }
     let n = 2 + r.usize(7);
     let mut prog = Prog::empty();
     prog.ninputs = 1 + r.usize(4);
@@ -1344,6 +1347,50 @@ pub fn gen_case(r: &mut Rng, p: Profile) -> Case {
             ops.push(Op::Get(r.usize(n)));
         }
     }
+    Case { prog, init, ops }
+}
+
+/// Directed family (full profile): ACCUMULATING `lru` nodes under eviction pressure.  `k` lru nodes (more than the
+/// capacity) push a value each; a chain of non-pushing plain callers sits between the root and the first lru node, so that
+/// after an eviction and a revision that leaves the chain merely verified the accumulated values must still be found.
+fn gen_acc_lru_case(r: &mut Rng) -> Case {
+    let mut prog = Prog::empty();
+    prog.ninputs = 2 + r.usize(2);
+    prog.ncells = 1;
+    let k = 3 + r.usize(2);
+    for q in 0..k {
+        let v = if r.chance(1, 2) { E::In(r.usize(prog.ninputs)) } else { E::C(r.below(4) as u32) };
+        let body = if q > 0 && r.chance(1, 3) {
+            E::Add(Box::new(E::Push(Box::new(v))), Box::new(E::Call(q - 1)))
+        } else {
+            E::Push(Box::new(v))
+        };
+        prog.nodes.push((Kind::Lru, body));
+    }
+    let depth = 1 + r.usize(3);
+    let mut below = r.usize(k);
+    for _ in 0..depth {
+        let e = if r.chance(1, 4) { E::Add(Box::new(E::Call(below)), Box::new(E::In(r.usize(prog.ninputs)))) } else { E::Call(below) };
+        prog.nodes.push((Kind::Plain, e));
+        below = prog.nodes.len() - 1;
+    }
+    let root = below;
+    let init: Vec<(u32, u8)> = (0..prog.ninputs).map(|_| (r.below(4) as u32, r.below(3) as u8)).collect();
+    let mut ops = vec![Op::Acc(root)];
+    for _ in 0..(2 + r.usize(6)) {
+        match r.below(10) {
+            0..=3 => ops.push(Op::Get(r.usize(k))),
+            4..=5 => ops.push(Op::Synth(r.below(3) as u8)),
+            6 => ops.push(Op::Set(r.usize(prog.ninputs), r.below(4) as u32, None)),
+            7 => ops.push(Op::Acc(r.usize(prog.nodes.len()))),
+            _ => ops.push(Op::Acc(root)),
+        }
+    }
+    for q in 0..k {
+        ops.push(Op::Get(q));
+    }
+    ops.push(Op::Synth(r.below(3) as u8));
+    ops.push(Op::Acc(root));
     Case { prog, init, ops }
 }
 
